@@ -9,7 +9,7 @@ from . import common as C
 
 STRLIKE = ("string", "text", "url", "person")
 FLOAT_POOL = [0.0, -0.0, 1.5, 0.1, 1e300, -2.25]
-DATE_POOL = [dt.date(2020, 1, 2), dt.date(1999, 12, 31)]
+DATE_POOL = [dt.date(2020, 1, 2), dt.date(1999, 12, 31), dt.date(800, 12, 25)]      # a year below 1000: %Y is not zero-padded everywhere
 TIME_POOL = [dt.time(12, 34, 56), dt.time(0, 0, 0)]
 DATETIME_POOL = [dt.datetime(2020, 1, 2, 12, 34, 56), dt.datetime(1999, 12, 31, 0, 0, 0)]
 
